@@ -4,7 +4,7 @@ ed25519 / secp256k1 keys, nested multisig keys and the keybase against the ideal
 import json, os
 import common as c
 
-N = {"quick": (4000, 150), "thorough": (150000, 2500)}
+N = {"quick": (4000, 150), "thorough": (150000, 1200)}
 
 
 def run(a):
